@@ -80,6 +80,43 @@ Section WithJson.
 
   Definition d_invalid (d : darg) : bool :=
     match d_pre d, d_ctor d with None, None => false | _, _ => true end.
+
+  (* ---- exceptions of setattr that are neither TypeError nor ValueError (OverflowError of float(),
+     IndexError ...).  Fail-fast construction catches Exception and re-raises with the class prefix;
+     the collect-all loop catches (TypeError, ValueError) only: anything else leaves the loop at once,
+     as it is. *)
+  Definition uarg := (pystr * option (pystr * bool))%type.     (* message, caught by the collect-all loop *)
+
+  Definition forget (a : uarg) : arg := (fst a, option_map fst (snd a)).
+
+  Fixpoint collect_loop (args : list uarg) (acc : list pystr) : pystr + list pystr :=
+    match args with
+    | [] => inr acc
+    | (_, None) :: t => collect_loop t acc
+    | (_, Some (m, true)) :: t => collect_loop t (acc ++ [m])
+    | (_, Some (m, false)) :: _ => inl m
+    end.
+
+  Definition construct_u (fail_fast : bool) (cls : pystr) (args : list uarg) : option exn_text :=
+    if fail_fast then construct true cls (map forget args)
+    else match collect_loop args [] with
+         | inl m => Some (plain_exn m)
+         | inr [] => None
+         | inr errs => Some (json_exn (map (with_class cls) errs))
+         end.
+
+  Definition ctor_uargs (bound : list (darg * bool)) : list uarg :=
+    map (fun p => (d_name (fst p), option_map (fun m => (m, snd p)) (d_ctor (fst p)))) bound.
+
+  Definition deserialize_u (ff : bool) (cls : pystr) (ds : list darg) (bound : list (darg * bool)) : option exn_text :=
+    match deser_loop ff ds [] with
+    | inl r => r
+    | inr [] => construct_u ff cls (ctor_uargs bound)
+    | inr errs => Some (json_exn (map (with_class cls) errs))
+    end.
+
+  Definition all_caught (args : list uarg) : bool :=
+    forallb (fun a => match snd a with Some (_, false) => false | _ => true end) args.
 End WithJson.
 
 (* the paths reported by the helper *)
